@@ -142,6 +142,13 @@ class MPath:
     def __str__(self):
         return self.absolute()
 
+    # pathlib.Path has value semantics: two Path objects for the same file are equal and hash alike
+    def __eq__(self, other):
+        return isinstance(other, MPath) and other.name == self.name
+
+    def __hash__(self):
+        return hash(("MPath", self.name))
+
     def with_name(self, nm):
         return MPath(self.fs, nm)
 
@@ -231,6 +238,31 @@ def build_reference(content):
 TRUTH1 = build_reference(V1)
 TRUTH2 = build_reference(V2)
 NOPS = TRUTH2[4]
+
+
+def reindex_after_rewrite_same_process(first_twice: bool) -> bool:
+    """
+    post: _
+    """
+    # history INSIDE ONE PROCESS: auto-load, rewrite the FASTA with new content at a later time,
+    # auto-load again: the second load yields the NEW content (run natively: CrossHair bypasses
+    # functools caches while tracing, and a memoised indexer is exactly what must be noticed)
+    START()
+    twice = True if first_twice else False
+
+    def body():
+        fs = MFS(100, [1])
+        fs.files["x.fa"] = Inode(V1, 50)
+        fi = mkindex(fs)
+        fi.auto_load()
+        if twice:
+            mkindex(fs).auto_load()
+        first_ok = list(fi.index.keys()) == ["a", "b"]
+        fs.tick()
+        fs.files["x.fa"] = Inode(V2, fs.clock + 5)
+        fs.clock = fs.clock + 6
+        return first_ok and load_ok(fs) and {k: v.text for k, v in fs.files.items() if k != "x.fa"} == TRUTH2[2]
+    return FIN(native(body))
 
 
 def rebuild_writes_both_fai_first() -> bool:
@@ -693,6 +725,8 @@ def conditions(tier):
              "-> optional deletion of either cache file -> a fresh auto-load; clock ticks between file operations symbolic (>= 0: same-granule timestamps included)",
              env=ENV, encodes=ENC) for k in ("".join(map(str, (a, b, c, d))) for a in (0, 1) for b in (0, 1) for c in (0, 1) for d in (0, 1))
     ] + [
+        Cond("reindex_after_rewrite_in_the_same_process", HEAD, "reindex_after_rewrite_same_process", 120,
+             "history within one process: auto-load (once or twice), FASTA rewritten with other content and a later mtime, auto-load again (concrete, run natively so that real memoisation is in force)", env=ENV, encodes=ENC),
         Cond("uninterrupted_rebuild_writes_fai_then_agp", HEAD, "rebuild_writes_both_fai_first", 120,
              "the real run_indexing on the model FS (concrete): both cache files complete, .fai in place before .agp is touched", env=ENV, encodes=ENC),
         Cond("missing_or_not_strictly_newer_is_rebuilt_together", HEAD, "stale_or_missing_is_rebuilt", 900,
